@@ -905,10 +905,14 @@ func (p *Prog) boundaryIndex(n int) int64 {
 	if p.r.chance(0.6) && n > 0 {
 		return int64(p.r.Intn(n))
 	}
+	if p.r.chance(0.06) {
+		// far outside: index arithmetic must not wrap around (int32 and int64 boundaries)
+		return pickOf(p.r, []int64{math.MaxInt64, math.MinInt64, math.MaxInt64 - int64(n), math.MinInt64 + int64(n), 1 << 31, -(1 << 31) - 1, 1 << 32, 1<<32 + int64(n) - 1})
+	}
 	return pickOf(p.r, cands)
 }
 
-var heapKeys = []string{"", "a", "b", "c", "a.b", "#0", ".x", "\"q\"", "é", "k", "a ", " a", "k\n"}
+var heapKeys = []string{"", "a", "b", "c", "a.b", "#0", ".x", "\"q\"", "é", "k", "a ", " a", "k\n", "A", "K", "e\u0301", "\u00c9"}
 
 // keys that are not well-formed UTF-8 (Go strings are byte strings; a map key is compared bytewise): only in the profiles that
 // never serialise (String() replaces ill-formed bytes, which the data comparison of the x-streams would report)
